@@ -85,6 +85,10 @@ CHECKS = {
           'sched+simreactor', 'DESIGN.md section 4 C09',
           'Cache side: receivers, a storing thread and a draining thread under generated and exhaustively placed preemptions with carbon\'s own flow-control wiring; relay side: the C07 machine plus structured pressure scenarios with flow control and receivers, quiescing either with everything reachable or with the environment keeping destinations down. At quiescence receivers must not be paused while every buffer is below its low watermark, connections made while paused must be paused, and no receiver may stay paused after the others were resumed. Three genuine defects found and fixed.',
           'Liveness is decided at quiescence on virtual clocks; line-level interleavings.'),
+  'C08': ('exploration', 'model-based property-based testing on a virtual clock driving the real LoopingCalls; exact-rational reference functions and an independent pattern matcher',
+          'aggregator', 'DESIGN.md section 4 C08',
+          'Generated rule files from the documented pattern language x all 12 methods x MAX_AGGREGATION_INTERVALS/WRITE_BACK_FREQUENCY/FORWARD_ALL/name-cache settings, histories of receives (late, duplicate, very old, future, fractional timestamps) and clock advances; each emission must be the rule function over a suffix of the values received for the interval that covers everything since the last emission (the whole interval while inside the horizon), re-emission only on new data, bounded buffers, idle series released, pass-through exactly as documented, names attributed by an independent matcher.',
+          'Expiry is judged away from its documented boundaries only; ambiguous <<field>> bindings are not sent.'),
 }
 
 PENDING_REASON = 'check not built yet in this session (design in DESIGN.md section 4); will be claimed once its check is quiet on the unchanged tree and catches its mutants'
@@ -134,6 +138,8 @@ def main():
 
 NA = {}
 ENGINES = [
+  {'name': 'aggregator', 'path': 'verif/props/c08.py', 'serves_properties': ['C08'],
+   'kind_free_text': 'virtual clock substituted for carbon.aggregator.buffers.time and LoopingCall.clock; verif/ref/aggpat.py matcher'},
   {'name': 'simreactor', 'path': 'verif/simreactor.py', 'serves_properties': ['C07', 'C09', 'C15'],
    'kind_free_text': 'task.Clock-based reactor double with connectTCP; the harness plays connection made/failed/lost, transport pause/resume and time'},
   {'name': 'ring', 'path': 'verif/ref/ring.py', 'serves_properties': ['C05', 'C06', 'C16'],
